@@ -108,7 +108,7 @@ func typeCheck(pkgs []*pkgInfo, parsed map[*pkgInfo]map[string]*ast.File) error 
 				next = append(next, p)
 				continue
 			}
-			info := &types.Info{Types: map[ast.Expr]types.TypeAndValue{}}
+			info := &types.Info{Types: map[ast.Expr]types.TypeAndValue{}, Uses: map[*ast.Ident]types.Object{}, Defs: map[*ast.Ident]types.Object{}}
 			conf := types.Config{Importer: imp, Error: func(error) {}}
 			tp, _ := conf.Check(p.imp, fset, files, info)
 			if tp == nil {
@@ -287,6 +287,93 @@ func (in *instr) tearIfInit(f *ast.File, src []byte, is *ast.IfStmt, fn string) 
 	hot[fn] = true
 }
 
+// sharedHot lists the functions that WRITE a variable which outlives the call
+// and is not reached through a parameter: a package-level variable, or a
+// variable of an enclosing function captured by a closure (a memo hidden in a
+// closure is invisible to the package-state snapshot, but not to the type
+// checker). The site policy aims at these first.
+var sharedHot = map[string]bool{}
+
+func rootIdent(e ast.Expr) *ast.Ident {
+	for {
+		switch t := e.(type) {
+		case *ast.Ident:
+			return t
+		case *ast.ParenExpr:
+			e = t.X
+		case *ast.SelectorExpr:
+			e = t.X
+		case *ast.IndexExpr:
+			e = t.X
+		case *ast.StarExpr:
+			e = t.X
+		case *ast.SliceExpr:
+			e = t.X
+		default:
+			return nil
+		}
+	}
+}
+
+func markShared(f *ast.File) {
+	info, pkg := typeInfo[f], typePkg[f]
+	if info == nil || pkg == nil {
+		return
+	}
+	for _, d := range f.Decls {
+		fd, ok := d.(*ast.FuncDecl)
+		if !ok || fd.Body == nil {
+			continue
+		}
+		fn := fd.Name.Name
+		if fd.Recv != nil && len(fd.Recv.List) == 1 {
+			fn = recvName(fd.Recv.List[0].Type) + "." + fd.Name.Name
+		}
+		written := func(e ast.Expr, lit *ast.FuncLit, name string) {
+			id := rootIdent(e)
+			if id == nil {
+				return
+			}
+			obj := info.Uses[id]
+			if obj == nil {
+				obj = info.Defs[id]
+			}
+			v, ok := obj.(*types.Var)
+			if !ok || v.IsField() {
+				return
+			}
+			if v.Parent() == pkg.Scope() {
+				sharedHot[name] = true
+			} else if lit != nil && (v.Pos() < lit.Pos() || v.Pos() >= lit.End()) {
+				sharedHot[name] = true
+			}
+		}
+		// name follows the site table: a function literal is "<enclosing>.func"
+		var walk func(n ast.Node, lit *ast.FuncLit, name string)
+		walk = func(n ast.Node, lit *ast.FuncLit, name string) {
+			ast.Inspect(n, func(m ast.Node) bool {
+				switch t := m.(type) {
+				case *ast.FuncLit:
+					if m != n {
+						walk(t, t, name+".func")
+						return false
+					}
+				case *ast.AssignStmt:
+					if t.Tok != token.DEFINE {
+						for _, l := range t.Lhs {
+							written(l, lit, name)
+						}
+					}
+				case *ast.IncDecStmt:
+					written(t.X, lit, name)
+				}
+				return true
+			})
+		}
+		walk(fd.Body, nil, fn)
+	}
+}
+
 // hot lists the functions that touch package-level state or synchronisation:
 // the scheduler's site policy aims preemptions at them.
 var hot = map[string]bool{}
@@ -432,6 +519,7 @@ func main() {
 		sort.Strings(p.globals)
 		for _, f := range p.files {
 			markHot(p, parsed[f])
+			markShared(parsed[f])
 		}
 		// globals registration file
 		var b bytes.Buffer
@@ -469,7 +557,12 @@ func main() {
 		hotList = append(hotList, k)
 	}
 	sort.Strings(hotList)
-	sj, _ := json.Marshal(map[string]any{"mode": *mode, "sites": sites, "go_stmts": goCount, "module": modPath, "may_block": mayBlock, "hot_funcs": hotList})
+	var sharedList []string
+	for k := range sharedHot {
+		sharedList = append(sharedList, k)
+	}
+	sort.Strings(sharedList)
+	sj, _ := json.Marshal(map[string]any{"mode": *mode, "sites": sites, "go_stmts": goCount, "module": modPath, "may_block": mayBlock, "hot_funcs": hotList, "shared_hot_funcs": sharedList})
 	if err := os.WriteFile(filepath.Join(*out, "sites.json"), sj, 0o644); err != nil {
 		die("%v", err)
 	}
